@@ -145,7 +145,7 @@ func c52(c *Ctx) {
 			if !ok || !isLoopHeader(b) {
 				continue
 			}
-			if bo, ok := i.Cond.(*ssa.BinOp); !ok || !FieldLoad(fOv)(bo.Y) {
+			if _, _, _, ok := cmpOriented(i.Cond, FieldLoad(fOv)); !ok {
 				continue
 			}
 			for _, p := range breakPreds(b) {
